@@ -44,6 +44,7 @@ ASSUMPTIONS = [
 REQUIRED_MONITORS = ("flip_trials", "flip_clearauth_trials", "forgery_trials", "rejected_with_exception", "authentic_replay_accepted")
 
 DB = {
+    (1, 3, 6, 1, 2, 1, 1, 0, 9): ("str", b"zeros:" + b"\x00" * 16 + b":end"),
     (1, 3, 6, 1, 2, 1, 1, 1, 0): ("str", b"authentic-sysDescr"),
     (1, 3, 6, 1, 2, 1, 1, 3, 0): ("tt", 123456),
     (1, 3, 6, 1, 2, 1, 1, 5, 0): ("str", b"host"),
@@ -248,6 +249,19 @@ def forgeries(t):
         ct[-1] ^= 0x01
         yield "flags2-ciphertext-last-bit", t.build(2, None, encrypted=bytes(ct), priv=t.msg["usm"]["priv"])
         yield "flags3-ciphertext-last-bit-digest-kept", t.build(3, None, encrypted=bytes(ct), priv=t.msg["usm"]["priv"], digest=orig_digest)
+    # below the security level, and the PDU is neither a Response nor a Report
+    for ptype in (ber.PDU_GET, ber.PDU_GETNEXT, ber.PDU_SET, ber.PDU_INFORM, ber.PDU_TRAP):
+        yield "flags0-plaintext-altered-pdu-0x%02x" % ptype, t.build(0, t.altered_pdu(ptype))
+        yield "flags0-plaintext-altered-pdu-0x%02x-empty-user" % ptype, t.build(0, t.altered_pdu(ptype), user=b"")
+    # the authentic message contains a run of >= 12 zero octets: the attacker overwrites 12
+    # of them with a copy of the message's own digest (a second place that looks like the
+    # digest field to a byte search)
+    if t.msg["flags"] & 1 and "encrypted" not in t.msg:
+        run_at = t.resp.find(b"\x00" * 12, t.msg["auth_span"][1])
+        if run_at > 0:
+            d = bytearray(t.resp)
+            d[run_at : run_at + 12] = orig_digest
+            yield "digest-copied-into-a-zero-run", bytes(d)
     # Reports: unauthenticated, carrying data and the expected request-id
     rep = t.altered_pdu(ber.PDU_REPORT)
     yield "report-with-data", t.build(0, rep)
